@@ -389,6 +389,47 @@ func runC05(w *vx.W) {
 		}
 	}
 	c05WriterKindsFamily(w, &k)
+	// strings that are not valid UTF-8: Encode may refuse them, but whatever it writes without an error must still be a
+	// well-formed stream whose definitions match its records
+	for _, gs := range genSlots() {
+		for _, e := range prof().byMesg[gs.Mesg] {
+			if e.Base != fitmodel.String || e.Array {
+				continue
+			}
+			for vi := 10; vi <= 13; vi++ {
+				for c := 0; c < 4; c++ {
+					k++
+					if !w.Mine(k) {
+						continue
+					}
+					g := genSpec{Slot: gs, Msgs: [][]genFieldSet{{{e.Slot, vi}}, {{e.Slot, 0}}}, HdrCRC: c&1 == 0, Big: c&2 != 0, Desc: fmt.Sprintf("field %d holding invalid UTF-8 #%d", e.Num, vi)}
+					f, _, err := g.build()
+					if err != nil {
+						continue
+					}
+					out, eerr, pn := safeEncode(f, g.Big)
+					w.Eval(1)
+					w.Fam("invalid-utf8-strings", 1)
+					msg := ""
+					switch {
+					case pn != "":
+						msg = "Encode panics: " + pn
+					case eerr != nil:
+						// refused: fine
+					default:
+						if p, perr := fitmodel.Parse(out); perr != nil {
+							msg = "Encode reports success but the output violates the FIT grammar: " + perr.Error()
+						} else if len(p.Oddities) > 0 {
+							msg = "Encode reports success but the output is not canonical: " + p.Oddities[0]
+						}
+					}
+					if msg != "" {
+						w.Violation("invalid-utf8/grammar", fmt.Sprintf("%s file, %s%s (%v), %s, big=%v hdrcrc=%v: %s", fileTypeByByte(gs.FT).Name, gs.Common, gs.Slot.Name, fit.MesgNum(gs.Mesg), g.Desc, g.Big, g.HdrCRC, msg), c05Replay{g.json(), vx.Hex(out)})
+					}
+				}
+			}
+		}
+	}
 	if w.Shard == 0 {
 		g := genSpecs(genSlots()[5], false)[3]
 		out, _, _ := c05Check(g)
